@@ -163,7 +163,23 @@ def r4_cloexec(ctx):
     return out
 
 
+def r5_raw_results_owned(ctx):
+    """A descriptor returned by a raw system call is handed to an owner whenever the call succeeded: the
+    success test on the raw return value puts 0 on the owning side (fd 0 is what the kernel returns when
+    descriptor 0 is free; classifying it as a failure reports an error and leaks the new descriptor)."""
+    from .c09 import r3_fd_zero_valid
+    out = []
+    for i in r3_fd_zero_valid(ctx):
+        if i.key.startswith("syscalls::"):
+            i.rule = "C11.R5"
+            out.append(i)
+    if not out:
+        out.append(violated("C11.R5", "syscalls::openat2:raw-result", "", "no success test on the raw openat2 result found (anchor drift)"))
+    return out
+
+
 RULES = [
+    ("C11.R5", r5_raw_results_owned, 1, False),
     ("C11.R1", r1_escape_hatches, 2, False),
     ("C11.R2", r2_statics, 3, False),
     ("C11.R3", r3_rc_types, 2, False),
